@@ -3,7 +3,7 @@
    `served` is the broker abstracted to the views it serves over time; the only facts assumed about it are C04's:
    served_mono_prop (per address the served epoch never decreases) and served_same_prop (equal epochs imply equal content). *)
 From UM Require Import Base.BytesDef Model.Ctrl Proofs.CtrlProofsInv Proofs.CtrlProofsMain Proofs.CtrlProofsRound
-  Proofs.CtrlProofsMig Proofs.CtrlProofsTwo.
+  Proofs.CtrlProofsMig Proofs.CtrlProofsTwo Proofs.CtrlProofsOrder.
 
 (* For every event sequence whatsoever (drops, duplicates, delays = late Deliver, reordering, coordinator crashes, restarts of
    other proxies, broker changes, any number of coordinators): as long as proxy a is not restarted its installed epoch (of either
@@ -128,6 +128,34 @@ Check C07_two_rounds : forall served, served_mono_prop served -> served_same_pro
         installed s2 a kd = {| k_epoch := E; k_content := C |}).
 Print Assumptions C07_two_rounds.
 
+(* Destination before source, under ANY scripted call faults (a drop, duplicate, delay, lost reply or crash at each of the call
+   boundaries of sync_migration_state; no_inject: no environment event is placed between them): either the source is never
+   contacted by this sync, or the events split into a prefix that never fetches for the source, contains the commit request and
+   ends in a state where the destination has installed cluster metadata at least as new as the view the broker serves it then
+   (the post-commit view), followed by the source's own sync *)
+Theorem C07_dst_before_src : forall served sc, no_inject sc ->
+  forall k a m n s evs n' o,
+  queue_free k s -> m_src m <> m_dst m ->
+  sync_migration served sc k a m n s = (evs, n', o) ->
+  (forall tag, ~ In (Fetch k (m_src m) tag) evs)
+  \/ exists e1 es, evs = e1 ++ es
+       /\ (forall tag, ~ In (Fetch k (m_src m) tag) e1)
+       /\ In (Commit (m_id m)) e1
+       /\ (forall E C, served (now (run served e1 s)) (m_dst m) = Some (E, C) ->
+             E <= k_epoch (installed (run served e1 s) (m_dst m) KCluster)).
+Proof. exact dst_before_src. Qed.
+Check C07_dst_before_src : forall served sc, no_inject sc ->
+  forall k a m n s evs n' o,
+  queue_free k s -> m_src m <> m_dst m ->
+  sync_migration served sc k a m n s = (evs, n', o) ->
+  (forall tag, ~ In (Fetch k (m_src m) tag) evs)
+  \/ exists e1 es, evs = e1 ++ es
+       /\ (forall tag, ~ In (Fetch k (m_src m) tag) e1)
+       /\ In (Commit (m_id m)) e1
+       /\ (forall E C, served (now (run served e1 s)) (m_dst m) = Some (E, C) ->
+             E <= k_epoch (installed (run served e1 s) (m_dst m) KCluster)).
+Print Assumptions C07_dst_before_src.
+
 (* C13, reconvergence half.  No assumption on the history at all (it may have restarted from an earlier snapshot): in ANY state
    s (any proxies' contents, anything in flight), if the broker now serves every listed proxy an epoch strictly greater than what
    that proxy has installed - which is what epoch recovery establishes - then one complete fault-free meta-sync round makes
@@ -215,4 +243,22 @@ Proof.
   - intros kc H. vm_compute in H. destruct H as [<- | []]. cbn. discriminate.
   - split; [|split; vm_compute; reflexivity].
     intros a E C kd [<- | [<- | []]] H; vm_compute in H; inversion H; subst; destruct kd; vm_compute; reflexivity.
+Qed.
+
+(* dst before src: a script with a duplicated commit, a duplicated SETREPL to the destination and a lost reply of the source's
+   SETCLUSTER still reaches the source (so the second disjunct of C07_dst_before_src is the one that applies) *)
+Definition ex_script : script :=
+  {| sc_fault := fun n => match n with 0%nat => FDup | 2%nat => FDup | 6%nat => FNoReply | _ => FNone end;
+     sc_inject := fun _ _ => []; sc_reports := fun _ => [] |}.
+
+Example C07_example_dst_before_src :
+  let st := run ex_served ex_pre init in
+  let m := {| m_id := 5; m_src := 2; m_dst := 1 |} in
+  let r := sync_migration ex_served ex_script 8 1 m 0 st in
+  no_inject ex_script /\ queue_free 8 st /\ In (Fetch 8 2 4) (fst (fst r)) /\ snd r = Failed
+  /\ commits (run ex_served (fst (fst r)) st) = [5].
+Proof.
+  split; [intros n st; reflexivity|]. vm_compute. repeat split; try reflexivity.
+  - intros kc [].
+  - do 10 right. left. reflexivity.
 Qed.
